@@ -5,7 +5,7 @@ from .. import adapters, core, operators, prog
 from ..draw import composite
 
 RULE = ("conforming program (DESIGN §4.1) x edit operator of the violation catalogue (DESIGN §4.2) x applicable site "
-        "(quick: one site per operator per program, thorough: one site per (operator, site class) per program); oracle: the "
+        "(quick: one site per operator per program - the one whose site class the shard has used least, thorough: one site per (operator, site class) per program); oracle: the "
         "mutated file is status Error and its diagnostics contain (Error, expected code, report line); every 25th variant also through "
         "the CLI: '<name>: Error!' and exit status != 0; precondition: the unmutated program is accepted; non-trivial = every mutated "
         "file of an accepted program, distinct by SHA-1 of the mutated text; coverage lists hits per (operator, site class)")
@@ -57,7 +57,7 @@ def check_variant(camp, p, o, cls, ap, idx, cli=False):
 
 def shard(seed, n, per_class):
     camp = core.Campaign()
-    state = {"k": 0}
+    state = {"k": 0, "seen": {}}
 
     def body(v):
         p, pick = v
@@ -70,7 +70,12 @@ def shard(seed, n, per_class):
             if not sites:
                 continue
             if per_class == 0:
-                chosen = [sites[(pick + 7919 * n_op) % len(sites)]]
+                # the site whose class this shard has exercised least so far (ties: by the drawn number), so that rare classes are reached
+                start = (pick + 7919 * n_op) % len(sites)
+                order = sites[start:] + sites[:start]
+                best = min(order, key=lambda sa: state["seen"].get((o["id"], sa[0]), 0))
+                state["seen"][(o["id"], best[0])] = state["seen"].get((o["id"], best[0]), 0) + 1
+                chosen = [best]
             else:
                 seen = {}
                 chosen = []
